@@ -281,6 +281,23 @@ func (ex *Exec) abstractFunc(st *PState, fn *ssa.Function, full string, args []V
 			}
 		}
 	}
+	// package-level helpers on a felt-abstracted element
+	if fn.Signature.Recv() == nil && fn.Signature.Params().Len() >= 1 {
+		if pt, ok := fn.Signature.Params().At(0).Type().(*types.Pointer); ok && ex.absKind(pt.Elem()) == "felt" {
+			q := ex.feltModulus(pt.Elem())
+			switch fn.Name() {
+			case "MulBy3", "MulBy5", "MulBy13":
+				k := map[string]int64{"MulBy3": 3, "MulBy5": 5, "MulBy13": 13}[fn.Name()]
+				ex.store(st, args[0], ex.modQ(ts.Mul(ts.Int64(k), ex.ldT(st, args[0])), q))
+				return nil, true
+			case "Butterfly":
+				a, b := ex.ldT(st, args[0]), ex.ldT(st, args[1])
+				ex.store(st, args[0], ex.modQ(ts.Add(a, b), q))
+				ex.store(st, args[1], ex.modQ(ts.Sub(a, b), q))
+				return nil, true
+			}
+		}
+	}
 	if full == "math/big.NewInt" {
 		if _, ok := ex.abstractSort(fn.Signature.Results().At(0).Type().(*types.Pointer).Elem()); ok {
 			o := ex.alloc(st, "big.NewInt", fn.Signature.Results().At(0).Type().(*types.Pointer).Elem(), args[0])
@@ -377,7 +394,6 @@ func (ex *Exec) realMethod(st *PState, fn *ssa.Function, args []Value) Value {
 	fail("no summary for method %s on abstracted type", fn.String())
 	return nil
 }
-
 
 func (ex *Exec) absKindPtr(t types.Type) string {
 	if p, ok := t.(*types.Pointer); ok {
